@@ -67,17 +67,19 @@ theorem convertTrack_term_ne_nil {nS nM : Nat} {es : List MEv} {ty : Nat} {strea
 
 /-- **the chunk of a constructed song** provides what the song theorems need -/
 theorem chunkOK_of_construct {song : Song} {d : DataInfo} (hpc : PlatformClean d) (hp : PlainSong song) {vol : Option String}
-    {b : Built} (h : construct song d vol = .ok b) (hlen : b.seq.length < 65536) : ChunkOK song b := by
+    {b : Built} (h : construct song d vol = .ok b) (hlen : b.seq.length < 65536) : ChunkOK song d b := by
   obtain ⟨hinv, _, hasm⟩ := construct_inv hpc h
   obtain ⟨hfl, _⟩ := construct_flat hpc hp.songNoEnd h
   obtain ⟨_, _, _, _, _, _, hsz, _⟩ := assemble_ok hasm
   unfold hdrSize at hsz
   have hfits := C09_index_fits_byte hasm
   obtain ⟨_, _, hsub, _, _⟩ := C09_slot_count hasm
-  refine ⟨hfl, hinv.maps, hlen, by omega, ?_, ?_⟩
-  · intro evs he ev hev ht
-    have := (hfits evs (List.mem_append_right _ he) ev hev).1 ht
-    omega
+  refine ⟨hfl, hinv.maps, hlen, by omega, by omega, ?_, ?_⟩
+  · intro evs he ev hev
+    obtain ⟨f1, _, _, f4⟩ := hfits evs (List.mem_append_right _ he) ev hev
+    refine ⟨fun ht => ?_, fun ht hne => ?_⟩
+    · have := f1 ht; omega
+    · exact f4 ht hne
   · intro k hk
     obtain ⟨off, stream, rest, h1, h2, h3⟩ := hsub k hk
     refine ⟨off + (4 + 4 * b.trackList.length), stream, rest, ?_, (convertTrackChk_fits h2).2, ?_⟩
@@ -88,7 +90,7 @@ theorem chunkOK_of_construct {song : Song} {d : DataInfo} (hpc : PlatformClean d
 theorem song_plays {song : Song} {d : DataInfo} (hpc : PlatformClean d) (hp : PlainSong song) {vol : Option String}
     {b : Built} (h : construct song d vol = .ok b) (hlen : b.seq.length < 65536) (pf : Timeline.Platform)
     {id : Nat} {root : List Event} (hmem : (id, root) ∈ song.tracks) (hid : id < 16)
-    (hR : RoutinesOK song b)
+    (hP : PlatOK b.conv.subList.length b.conv.macroList.length pf d.platform) (hR : RoutinesOK song b)
     (hseg0 : Timeline.segnoAtDepth0 0 root = true) (hcnt : segCount root ≤ 1) (hloop : LoopDrumOK root)
     {t : List Tk} (hexp : Timeline.expected song pf root = .ok t) (mj : Nat) :
     ∃ ts stream pre, tracksOf b.seq = some (4 + 4 * b.trackList.length, ts) ∧ ts.lookup id = some pre.length ∧
@@ -136,13 +138,15 @@ theorem song_plays {song : Song} {d : DataInfo} (hpc : PlatformClean d) (hp : Pl
   -- the stream of the track
   obtain ⟨off, stream, rest, a1, _, a3, a4, a5⟩ := htab i0 hi0'
   have hoff : offs i0 = off := by rw [hoffsf]; simp [a3]
-  have hch : ChanFlat song b.conv.subMap id b.trackList[i0].2 := by
+  have hch : ChanFlat song (ctxOf d b.conv) id b.trackList[i0].2 := by
     have := hchan b.trackList[i0] (List.getElem_mem hi0')
     rwa [hg0] at this
-  have hfitT : ∀ ev ∈ b.trackList[i0].2, ev.type = mds_PAT → ev.arg < 256 := by
-    intro ev hev ht
-    have := (hfits b.trackList[i0].2 (List.mem_append_left _ (List.mem_map.mpr ⟨_, List.getElem_mem hi0', rfl⟩)) ev hev).1 ht
-    omega
+  have hfitT : ∀ ev ∈ b.trackList[i0].2, FitsEv b.conv.subList.length ev := by
+    intro ev hev
+    obtain ⟨f1, _, _, f4⟩ := hfits b.trackList[i0].2 (List.mem_append_left _ (List.mem_map.mpr ⟨_, List.getElem_mem hi0', rfl⟩)) ev hev
+    refine ⟨fun ht => ?_, fun ht hne => ?_⟩
+    · have := f1 ht; omega
+    · exact f4 ht hne
   have hconv := (convertTrackChk_fits a4).2
   have hne : stream ≠ [] := by
     obtain ⟨items0, hperf0⟩ := perf_of_expected hexp
@@ -153,7 +157,7 @@ theorem song_plays {song : Song} {d : DataInfo} (hpc : PlatformClean d) (hp : Pl
     · exact .inl rfl
     · exact .inr rfl
   obtain ⟨hsplit, hprel⟩ := split_of_drop a5 hne
-  have hres := chan_plays pf hp hc hR hmem hch hfitT hconv hsplit hseg0 hcnt hloop hexp mj
+  have hres := chan_plays pf hp hc hP hR hmem hch hfitT hconv hsplit hseg0 hcnt hloop hexp mj
   refine ⟨_, stream, b.seq.take (4 + 4 * b.trackList.length + off), htr, ?_, ?_, hres⟩
   · rw [hprel]
     apply lookup_unique
